@@ -38,7 +38,7 @@ Fixpoint hist_ok (cfg : config) (s : sstate) (h : list event) : Prop :=
 (** ** One step *)
 
 Lemma TR_set_mem X cfg s t m : TR X cfg s t → TR X cfg s (t <| t_mem := m |>).
-Proof. intros [H1 H2 H3 H4 H5]. by split. Qed.
+Proof. intros [H1 H2 H3 H4 H5 H6]. by split. Qed.
 Lemma TRP_set_mem X cfg s t m : TRP X cfg s t → TRP X cfg s (t <| t_mem := m |>).
 Proof. intros (n & hk & tm & H). exists n, hk, tm. exact H. Qed.
 
@@ -52,7 +52,7 @@ Section step.
   Proof.
     intros Hcfg HI Hok Hh HT HM Hin.
     destruct ev; simpl in Hin, Hok.
-    - (* EConnect *) apply det_elem' in Hin. injection Hin as -> ->. left. by apply track_connect_ok.
+    - (* EConnect *) apply det_elem' in Hin. injection Hin as -> ->. left. destruct Hh as (_ & ? & ? & ?). by apply track_connect_ok.
     - (* EDisconnect *) apply det_elem' in Hin. left. eapply track_disconnect_ok; try done. by eapply hist_ok_ev_noshut.
     - (* ETryLock *) apply det_elem' in Hin. left. eapply track_trylock_ok; try done. by eapply hist_ok_ev_noshut.
     - (* ELock *) apply det_elem' in Hin. left. destruct Hok. eapply track_lock_ok; try done. by eapply hist_ok_ev_noshut.
@@ -143,7 +143,7 @@ Section runs.
     fails_ok X (track cfg i (zip h os) t).
   Proof.
     induction h as [|ev h IH]; intros s t i sf os HI Hh [HR HM] Hin.
-    - simpl. destruct HR as [HT|[(? & ? & ? & _ & _ & _ & _ & _ & _ & _ & ?) _]]; [apply (tr_fail _ _ _ _ HT)|done].
+    - simpl. destruct HR as [HT|[(? & ? & ? & _ & _ & _ & _ & _ & _ & _ & _ & _ & ?) _]]; [apply (tr_fail _ _ _ _ HT)|done].
     - apply elem_of_runs_cons in Hin as (s1 & o & os' & Hst & Hr & ->). simpl.
       destruct Hh as (Hok & Hhe & Hnext & Hrest).
       pose proof (inv_step _ _ _ _ _ Hcfg HI Hok Hst) as HI1.
@@ -169,6 +169,7 @@ Proof.
     + by intros _ ? ?%elem_of_nil.
     + by intros ? ? ?%elem_of_nil.
   - constructor.
+  - split_and!; by intros ? ?%elem_of_nil.
   - by intros ? ? ?%elem_of_nil.
 Qed.
 
